@@ -165,6 +165,18 @@ class StateHosts(Contract):
             return []
         sig = S.sig
         h = S.result
+        if isinstance(h, PyList) and not sig.symbolic:
+            # concrete-structured mode: the list itself, entry by entry
+            cs = [z3.BoolVal(len(h.items) == sig.N)]
+            for i, el in enumerate(h.items[:sig.N]):
+                okc = isinstance(el, tuple) and len(el) == 2 and isinstance(el[1], Obj) and \
+                    isinstance(el[1].fields.get("vector"), NpArr) and el[1].fields["vector"].cell is S.old["cell"] and \
+                    isinstance(el[0], tuple) and len(el[0]) == 2
+                if not okc:
+                    return [("C08.hosts-list", z3.BoolVal(False))]
+                cs.append(z3.And(ival(el[0][0]) == sig.addrs[i][0], ival(el[0][1]) == sig.addrs[i][1],
+                                 ival(el[1].fields["vector"].row) == i))
+            return [("C08.hosts-list", z3.And(*cs))]
         if not isinstance(h, SymSeq):
             return [("C08.hosts-list", z3.BoolVal(False))]
         j = z3.Int("hosts_j")
